@@ -812,7 +812,18 @@ def rule_return_const(prog, rep, tier, writer="emit.argparse_function", reader="
                 if not any(isinstance(x, ast.Attribute) and x.attr == "elts" for x in ast.walk(v)):
                     continue
                 found = True
-                by_value = any(isinstance(x, ast.Call) and getattr(x.func, "id", getattr(x.func, "attr", None)) in ("get_value", "literal_eval") for x in ast.walk(v)) \
+                def takes_value(x):
+                    nm = getattr(x.func, "id", getattr(x.func, "attr", None))
+                    if nm in ("get_value", "literal_eval"):
+                        return True
+                    # a package helper that does (parse_to_scalar: `get_value(node)` for constants)
+                    if isinstance(x.func, (ast.Name, ast.Attribute)):
+                        for t in prog.resolve_expr_fn(x.func, x):
+                            if isinstance(t, FunctionInfo) and any(isinstance(y, ast.Call) and getattr(y.func, "id", getattr(y.func, "attr", None)) in ("get_value", "literal_eval")
+                                                                    for g in prog.region(t) for y in ast.walk(g.node)):
+                                return True
+                    return False
+                by_value = any(isinstance(x, ast.Call) and takes_value(x) for x in ast.walk(v)) \
                     or any(isinstance(x, ast.Attribute) and x.attr in ("value", "s") and any(isinstance(y, ast.Attribute) and y.attr == "elts" for y in ast.walk(x.value))
                            for x in ast.walk(v))
                 if by_value:
